@@ -879,6 +879,13 @@ class Explorer:
 # interpreted functions / classes
 
 
+def _is_harness_obj(x):
+    """symbolic stand-ins defined by the verifier (engine/contracts/props), excluding the interpreter's own program-level values"""
+    t = type(x)
+    mod = (getattr(t, "__module__", "") or "").split(".")[0]
+    return mod in ("engine", "contracts", "props") and not isinstance(x, (SR, SB, FuncVal, Obj))
+
+
 class FuncVal:
     def __init__(self, node, module, closure=None, qualname=None, cls=None):
         self.node = node
@@ -1064,7 +1071,14 @@ class Interp:
         if isinstance(f, ClassVal):
             return self.instantiate(f, args, kwargs)
         if callable(f):
-            return f(*args, **kwargs)
+            try:
+                return f(*args, **kwargs)
+            except (TypeError, AttributeError) as e:
+                # a native callable that cannot digest a symbolic stand-in is a limit of the executor, not an exception of the program
+                hs = [a for a in list(args) + list(kwargs.values()) if _is_harness_obj(a)]
+                if hs and not _is_harness_obj(f):
+                    raise Unsupported("harness error: %s(%s): %s" % (getattr(f, "__name__", f), type(hs[0]).__name__, e))
+                raise
         raise Unsupported("call of non-callable %r" % (f,))
 
     def instantiate(self, cls, args, kwargs):
@@ -1907,6 +1921,8 @@ def default_builtins():
         h = getattr(x, "_sorted", None)
         if h is not None:
             return h(key, reverse)
+        if _is_harness_obj(x):
+            raise Unsupported("sorted(%s)" % type(x).__name__)
         xs = list(x)
         if any(is_sym(v) for v in xs) and key is None:
             raise Unsupported("sorted() of symbolic values")
